@@ -236,7 +236,7 @@ def run_cmd(cmd, cwd, timeout, mem_gb=None, logfile=None, env=None):
 class Harness:
     def __init__(self, name, bound, functions, clause, timeout=900, mem_gb=16,
                  extra=None, stubs=None, min_covers=1, witness_class=None, mod=None, cover_group=None,
-                 recursion_bounds=None, loop_bounds=None, cbmc_unwind=None):
+                 recursion_bounds=None, loop_bounds=None, cbmc_unwind=None, native_enum=None, native_cases=None):
         self.name = name
         self.mod = mod                # module path inside the crate, e.g. "eval::verif_c03_eval"
         self.bound = bound            # text: stated bound
@@ -260,6 +260,12 @@ class Harness:
         self.loop_bounds = loop_bounds or []
         # global unwinding bound passed to CBMC directly (Kani refuses its own unwind flags next to --cbmc-args --unwindset)
         self.cbmc_unwind = cbmc_unwind
+        # fallback replay: candidate values (u32) for each 4-byte kani::any() of the harness, in call order; the
+        # harness is run natively on the whole product when Kani's own concrete playback yields nothing that
+        # reproduces (used where a stub over-approximates, so that a solver model need not be realisable)
+        self.native_enum = native_enum
+        # explicit input vectors for the same fallback: [[(value, size_in_bytes), ...], ...]
+        self.native_cases = native_cases
 
 
 # The drop glue / clone / eq of yash_env::source::Location are recursive
@@ -546,6 +552,84 @@ class KaniSession:
         info["note"] = note
         return False
 
+    def replay_enum(self, res, prop_id):
+        """Native enumeration replay: run the harness natively (Kani's playback runtime) on every combination of the
+        candidate values declared for it; `kani::assume` violations are skipped. True iff some combination fails."""
+        h = res.h
+        if not h.native_enum and not h.native_cases:
+            return False
+        if h.native_cases:
+            # explicit cases: one "position" per case is not a product; encode as a list of full input vectors
+            cases = ", ".join("vec![%s]" % ", ".join("vec![%s]" % ", ".join("%du8" % b for b in int(v).to_bytes(sz, "little"))
+                                                     for v, sz in case) for case in h.native_cases)
+            body = """
+    let cases: Vec<Vec<Vec<u8>>> = vec![%s];
+    let mut tried = 0u64;
+    for vals in cases {
+        tried += 1;
+        let shown = format!("{:?}", vals);
+        let r = std::panic::catch_unwind(|| kani::concrete_playback_run(vals, %s));
+        if let Err(p) = r {
+            let msg = if let Some(s) = p.downcast_ref::<String>() { s.clone() } else if let Some(s) = p.downcast_ref::<&str>() { s.to_string() } else { String::from("?") };
+            if !msg.contains("kani::assume") && !msg.contains("Not enough det vals") {
+                let _ = std::panic::take_hook();
+                panic!("REPRODUCED natively with input bytes {} (run {}): {}", shown, tried, msg);
+            }
+        }
+    }
+    println!("enumeration finished: {} runs, none failed", tried);
+""" % (cases, h.name)
+            test = "\n#[test]\nfn kani_concrete_playback_enum_%s() {\n    std::panic::set_hook(Box::new(|_| {}));%s}\n" % (h.name, body)
+            return self._finish_enum(res, prop_id, test)
+        arrays = ", ".join("vec![%s]" % ", ".join("%du32" % v for v in cand) for cand in h.native_enum)
+        test = """
+#[test]
+fn kani_concrete_playback_enum_%(n)s() {
+    std::panic::set_hook(Box::new(|_| {}));
+    let cands: Vec<Vec<u32>> = vec![%(arrays)s];
+    let mut idx = vec![0usize; cands.len()];
+    let mut tried = 0u64;
+    loop {
+        let combo: Vec<u32> = idx.iter().enumerate().map(|(k, &i)| cands[k][i]).collect();
+        let vals: Vec<Vec<u8>> = combo.iter().map(|c| c.to_le_bytes().to_vec()).collect();
+        tried += 1;
+        let r = std::panic::catch_unwind(|| kani::concrete_playback_run(vals, %(n)s));
+        if let Err(p) = r {
+            let msg = if let Some(s) = p.downcast_ref::<String>() { s.clone() } else if let Some(s) = p.downcast_ref::<&str>() { s.to_string() } else { String::from("?") };
+            if !msg.contains("kani::assume") && !msg.contains("Not enough det vals") {
+                let _ = std::panic::take_hook();
+                panic!("REPRODUCED natively with inputs {:?} (after %%d runs): {}", combo, msg);
+            }
+        }
+        let mut k = 0;
+        loop {
+            if k == idx.len() { println!("enumeration finished: {} runs, none failed", tried); return; }
+            idx[k] += 1;
+            if idx[k] < cands[k].len() { break; }
+            idx[k] = 0;
+            k += 1;
+        }
+    }
+}
+""" % {"n": h.name, "arrays": arrays}
+        test = test.replace("(after %d runs)", "(run {})").replace('{:?} (run {}): {}", combo, msg', '{:?} (run {}): {}", combo, tried, msg')
+        return self._finish_enum(res, prop_id, test)
+
+    def _finish_enum(self, res, prop_id, test):
+        h = res.h
+        ok, note = self.run_playback(h, test)
+        rdir = os.path.join(VERIF, "replays", prop_id)
+        os.makedirs(rdir, exist_ok=True)
+        rpath = os.path.join(rdir, h.name + ".rs")
+        info = {"path": rpath, "reproduced": ok, "note": "native enumeration replay: " + note}
+        res.replay = info
+        if ok:
+            with open(rpath, "w") as f:
+                f.write("// Concrete counterexample for harness %s (property %s), found by native enumeration replay.\n"
+                        "// failed checks: %s\n// %s\n// replay: ./check %s --replay %s\n%s"
+                        % (h.name, prop_id, res.reason, note, prop_id, rpath, test))
+        return ok
+
     def harness_source(self, h):
         """Locate the scratch copy of the harness source that defines fn <name>."""
         # harness functions are often generated by a macro invocation that only mentions the name
@@ -582,7 +666,8 @@ class KaniSession:
                 return False, "native playback timed out"
             if re.search(r"test result: FAILED", out) or "panicked at" in out:
                 pm = re.search(r"panicked at [^\n]*\n([^\n]*)", out)
-                return True, "native playback panicked: " + (pm.group(1).strip() if pm else "")
+                rm = re.search(r"REPRODUCED natively[^\n]*", out)
+                return True, "native playback panicked: " + (rm.group(0) if rm else (pm.group(1).strip() if pm else ""))
             if re.search(r"test result: ok. [1-9]", out):
                 return False, "native playback passed (counterexample does not reproduce)"
             return False, "native playback inconclusive: " + out[-300:]
@@ -700,7 +785,11 @@ class Outcome:
                                     % self.max_replays}
                 self.unreplayed.append(r.h.name)
             elif r.status == "failed":
-                reproduced = session.replay(r, prop_id)
+                # where candidate inputs are declared, the cheap native enumeration is tried first (seconds);
+                # Kani's concrete playback (a second, slower solver run) is the fallback
+                reproduced = session.replay_enum(r, prop_id) if (r.h.native_enum or r.h.native_cases) else False
+                if not reproduced:
+                    reproduced = session.replay(r, prop_id)
                 if reproduced and confirm:
                     ok2, note2 = confirm(r)
                     r.replay["second_confirmation"] = note2
